@@ -155,7 +155,7 @@ func TestVerifC01W(t *testing.T) {
 				nopts = code % 10
 			}
 			// the connection: through the driver registry (NewSqlConn) or from a *sql.DB
-			var db *sql.DB
+			var db, odb *sql.DB
 			var mock sqlmock.Sqlmock
 			var sc SqlConn
 			verifDsnSeq++
@@ -166,8 +166,8 @@ func TestVerifC01W(t *testing.T) {
 				// the context becomes done while the driver executes the statement
 				db, mock, err = sqlmock.NewWithDSN(dsn)
 				if err == nil {
-					sc = NewSqlConnFromDB(sql.OpenDB(verifConnector{drv: db.Driver(), dsn: dsn, after: atReturn}),
-						verifSqlOpts(nopts)...)
+					odb = sql.OpenDB(verifConnector{drv: db.Driver(), dsn: dsn, after: atReturn})
+					sc = NewSqlConnFromDB(odb, verifSqlOpts(nopts)...)
 				}
 			} else if (c.ID+ci)%2 == 1 {
 				db, mock, err = sqlmock.NewWithDSN(dsn)
@@ -339,6 +339,9 @@ func TestVerifC01W(t *testing.T) {
 			}
 			out.Obs = append(out.Obs, []int64{invoked, after[0] - before[0], after[1] - before[1],
 				after[2] - before[2], sk, 0})
+			if odb != nil {
+				odb.Close()
+			}
 			if db != nil {
 				db.Close()
 			}
